@@ -291,13 +291,36 @@ def run(ctx):
     ctx.oblig(ok, {"Flag::bits": ftab}, "OR of the letters' bits")
     if not ok:
         ctx.violation("flag-bits", fb.file_line(), "Flag::bits is %s (expected %s)" % (ftab, wantf))
-    # BR: taken iff (flag & mask) != 0
+    # BR: taken iff (cc & nzp) != 0 - the handler's decision structure is evaluated on every (cc, nzp) pair; "taken" = the PC is written
     br = ctx.fn(hs[0])
-    conds = [br.expr(br.term(b)["a"], 10) for b in br.live_blocks() if br.term(b)["k"] == "switch"]
-    ok = len(conds) == 1 and conds[0][0] == "bin" and conds[0][1] == "Ne" and conds[0][3] == ("const", 0) and conds[0][2][0] == "bin" and conds[0][2][1] == "BitAnd"
-    ctx.oblig(ok, {"BR condition": [expr_str(c) for c in conds]}, "(cc & nzp) != 0")
+    btree = formula.decision(br, result_place=lambda p: [e.get("n") for e in p.get("pr", []) if isinstance(e, dict) and "f" in e][-1:] == ["pc"])
+    conds = formula.tree_conditions(btree)
+    badbr = None
+    for cc in (0, 1, 2, 4):
+        for nzp in range(8):
+            instr = (nzp << 9) | 0x005
+            def sub(e, _cc=cc, _i=instr):
+                if e[0] == "arg" and e[1] == 2:
+                    return _i
+                if e[0] == "discr" or (e[0] in ("field",) and e[2] == "flag"):
+                    return _cc
+                return None
+            try:
+                lab = formula.eval_decision(btree, {"subst": sub, "prog": prog})
+            except (formula.Unknown, formula.Overflow) as exn:
+                badbr = (cc, nzp, "undecidable: %s" % exn)
+                break
+            taken = lab is not None
+            if taken != ((cc & nzp) != 0):
+                badbr = (cc, nzp, "taken" if taken else "not taken")
+                break
+        if badbr:
+            break
+    ok = badbr is None
+    ctx.oblig(ok, {"BR condition": [expr_str(c) for c in conds], "cells": 32}, "taken iff (cc & nzp) != 0 on all 4 x 8 (cc, nzp) pairs")
     if not ok:
-        ctx.violation("br-condition", br.file_line(), "BR is taken on `%s` (expected (cc & nzp) != 0)" % [expr_str(c) for c in conds])
+        ctx.violation("br-condition", br.file_line(), "BR with condition code %s and nzp=%s is %s; the ISA takes the branch iff (cc & nzp) != 0 (conditions: %s)"
+                      % (format(badbr[0], "03b"), format(badbr[1], "03b"), badbr[2], [expr_str(c) for c in conds]))
     ctx.finish_rule()
 
 
